@@ -182,8 +182,16 @@ def _assignments(P, G, prod, choice, root):
             yield assign
 
 
-def match_one(P, G, root, removable, index=None):
-    """-> (strict, lax) sets of instances of P (no commutation) ending at host node `root`."""
+def is_dispatch_site(P, j, i):
+    """All alternatives are node outputs of pairwise different operators (the matcher may then dispatch on the producer)."""
+    alts = P["nodes"][j]["in"][i][1]
+    ids = {(P["nodes"][a[1]]["op"], P["nodes"][a[1]].get("domain", "")) for a in alts if a[0] == "o"}
+    return all(a[0] == "o" for a in alts) and len(ids) == len(alts)
+
+
+def match_one(P, G, root, removable, index=None, witness=None):
+    """-> (strict, lax) sets of instances of P (no commutation) ending at host node `root`.
+    witness (dict): strict instance -> one OR choice {(node, input index in the unswapped pattern): alternative}."""
     prod, cons = index or _index(G)
     strict, lax = set(), set()
     sites = or_sites(P)
@@ -197,6 +205,9 @@ def match_one(P, G, root, removable, index=None):
             lax.add(inst)
             if len(set(assign.values())) == len(assign):
                 strict.add(inst)
+                if witness is not None and inst not in witness:
+                    sw = P.get("_swap", ())
+                    witness[inst] = {(j, (1 - i) if j in sw else i): a for (j, i), a in choice.items()}
     return strict, lax
 
 
@@ -205,7 +216,7 @@ def commute_variants(P):
     idx = [j for j, n in enumerate(P["nodes"]) if n["op"] in COMMUTATIVE and n.get("domain", "") == ""]
     out = []
     for swaps in itertools.product([False, True], repeat=len(idx)):
-        Q = {"nodes": [dict(n) for n in P["nodes"]], "outs": P["outs"]}
+        Q = {"nodes": [dict(n) for n in P["nodes"]], "outs": P["outs"], "_swap": {j for j, s in zip(idx, swaps) if s}}
         for j, s in zip(idx, swaps):
             if s:
                 a = Q["nodes"][j]["in"]
@@ -216,13 +227,13 @@ def commute_variants(P):
     return out
 
 
-def match_spec(P, G, root, removable, commute=False, index=None):
+def match_spec(P, G, root, removable, commute=False, index=None, witness=None):
     index = index or _index(G)
     if not commute:
-        return match_one(P, G, root, removable, index)
+        return match_one(P, G, root, removable, index, witness)
     strict, lax = set(), set()
     for Q in commute_variants(P):
-        s, l = match_one(Q, G, root, removable, index)
+        s, l = match_one(Q, G, root, removable, index, witness)
         strict |= s
         lax |= l
     return strict, lax
